@@ -126,6 +126,12 @@ func entriesFromTar(p *Package, a *TarArchive, where string) []Entry {
 			Size: t.Size, Data: t.Data, Link: t.Link, Tar: t,
 		})
 		p.stamp(where+":"+t.Name, t.MTime)
+		if t.ATime != 0 {
+			p.stamp(where+":atime:"+t.Name, t.ATime)
+		}
+		if t.CTime != 0 {
+			p.stamp(where+":ctime:"+t.Name, t.CTime)
+		}
 	}
 	return out
 }
@@ -143,6 +149,12 @@ func decodeControlTar(p *Package, ctrl *TarArchive, scriptNames []string) {
 		name := strings.TrimPrefix(e.Name, "./")
 		p.HasCtrl[name] = true
 		p.stamp("control.tar:"+e.Name, e.MTime)
+		if e.ATime != 0 {
+			p.stamp("control.tar:atime:"+e.Name, e.ATime)
+		}
+		if e.CTime != 0 {
+			p.stamp("control.tar:ctime:"+e.Name, e.CTime)
+		}
 		switch name {
 		case "control":
 			fs, errs := ParseDeb822(e.Data)
@@ -332,6 +344,12 @@ func DecodeApk(b []byte) *Package {
 	for i := range p.Control.Entries {
 		e := &p.Control.Entries[i]
 		p.stamp("control.tar:"+e.Name, e.MTime)
+		if e.ATime != 0 {
+			p.stamp("control.tar:atime:"+e.Name, e.ATime)
+		}
+		if e.CTime != 0 {
+			p.stamp("control.tar:ctime:"+e.Name, e.CTime)
+		}
 		if e.Name == ".PKGINFO" {
 			p.Pkginfo = e.Data
 			p.Meta = ParsePkginfo(e.Data)
